@@ -233,13 +233,10 @@ func (vt *Model) cnl(ps int) {
 	if ps == 0 {
 		ps = 1
 	}
-	if ps > vt.height() {
-		// once every line has scrolled out nothing changes anymore
-		ps = vt.height()
-	}
-	for i := 0; i < ps; i += 1 {
-		vt.nel()
-	}
+	// CNL is CUD followed by a carriage return: it stops at the bottom margin
+	// and never scrolls
+	vt.cud(ps)
+	vt.cursor.col = vt.margin.left
 }
 
 // Cursor Preceding Line (CPL) CSI Ps F
@@ -249,13 +246,9 @@ func (vt *Model) cpl(ps int) {
 	if ps == 0 {
 		ps = 1
 	}
-	if ps > vt.height() {
-		// once every line has scrolled out nothing changes anymore
-		ps = vt.height()
-	}
-	for i := 0; i < ps; i += 1 {
-		vt.ri()
-	}
+	// CPL is CUU followed by a carriage return: it stops at the top margin and
+	// never scrolls
+	vt.cuu(ps)
 	vt.cursor.col = vt.margin.left
 }
 
